@@ -80,6 +80,8 @@ def funcs(ctx, module=None, stubs=None):
     fn.update({'__name__': name_of, '__resolve__': resolve, '__globals__': {},
                'floor': math.floor, 'ceil': math.ceil, 'sqrt': math.sqrt, 'fabs': abs, 'trunc': math.trunc, 'round': round,
                'isnan': lambda v: isinstance(v, float) and v != v, 'print': lambda *a, **k: None})
+    fn.setdefault('deepcopy', deep_copy)
+    fn.setdefault('copy', shallow_copy)
     fn.update(stubs or {})
     return fn
 
@@ -183,6 +185,21 @@ def all_bases(ctx, clsqual):
                 out |= all_bases(ctx, q)
         out.add(b.split('.')[-1])
     return out
+
+
+def shallow_copy(v):
+    """copy.copy for the values of the interpreter: a new record / container holding the same members"""
+    import copy as _copy
+    if isinstance(v, orders.Obj):
+        o = orders.Obj(dict(v.fields), v.methods, v.funcs, isa=v.isa)
+        o.clsname = v.clsname
+        o.consts = getattr(v, 'consts', None)
+        return o
+    if isinstance(v, (list, dict, set)):
+        return _copy.copy(v)
+    if isinstance(v, orders.PyStub) and not isinstance(v, ClassRef):
+        return _copy.copy(v)
+    return v
 
 
 def deep_copy(v, memo=None):
